@@ -34,6 +34,33 @@ def model(run, npos, ndefs):
     return plans, cycles
 
 
+def fmt_model(run):
+    """FmtPipe.tla: the code's design (writer thread, drain then wait) returns for all sizes, also with a streaming child; the two
+    variants deadlock. Returns the output sizes (quarters of the pipe capacity) to run the real code with."""
+    res = None
+    for v in ("code", "code_streaming"):
+        res = core.tlc("mc/MC_FmtPipe.tla", f"mc/MC_FmtPipe_{v}.cfg", workers=2, timeout=600, xmx="4g")
+        run.add_tlc(res, f"FmtPipe.tla ({v}): TypeOK, Conservation, Complete, NoDeadlock, liveness Returns for all sizes <= 3 x capacity")
+    for v in ("waitfirst", "nowriter"):
+        neg = core.tlc("mc/MC_FmtPipe.tla", f"mc/MC_FmtPipe_{v}.cfg", workers=2, timeout=600, xmx="4g", expect_violation=True)
+        if "NoDeadlock" not in neg.violated:
+            raise ToolError(f"the design variant {v} does not deadlock in the model: NoDeadlock says nothing")
+        run.cov.setdefault("fmt_design_variants_refuted", []).append(v)
+    plans = [c for c in res.printed("CASE") if c.get("kind") == "fmtsize"]
+    if len(plans) != 4:
+        raise ToolError(f"FmtPipe emitted {len(plans)} size plans")
+    return plans
+
+
+def rustfmt_home():
+    import shutil
+    exe = shutil.which("rustfmt")
+    for home in ([os.path.dirname(os.path.dirname(exe))] if exe else []) + [os.path.expanduser("~/.cargo")]:
+        if os.path.exists(os.path.join(home, "bin", "rustfmt")):
+            return home
+    return ""
+
+
 def known_by_key(run):
     """site / class -> deviation id, from the committed known findings"""
     m = {}
@@ -45,13 +72,16 @@ def known_by_key(run):
     return m
 
 
-def drive_and_validate(run, plans, cycles, sets, scale, shards):
-    paths = {k: run.path(k + ".ndjson") for k in ("plans", "cycles", "sets", "trace")}
+def drive_and_validate(run, plans, cycles, sets, scale, shards, fmt_plans=()):
+    paths = {k: run.path(k + ".ndjson") for k in ("plans", "cycles", "sets", "trace", "fmtplans")}
+    core.write_ndjson(paths["fmtplans"], list(fmt_plans))
+    home = rustfmt_home()
+    run.cov["rustfmt"] = home or "not found: the formatting step is not exercised"
     core.write_ndjson(paths["plans"], plans)
     core.write_ndjson(paths["cycles"], cycles)
     core.write_ndjson(paths["sets"], sets)
     core.vharness(["c08", "--plans", paths["plans"], "--cycles", paths["cycles"], "--sets", paths["sets"], "--extra", SNIPPETS, "--corpus", CORPUS,
-                   "--scale", str(scale), "--timeout-s", "60", "--trace", paths["trace"]], threads=14)
+                   "--scale", str(scale), "--timeout-s", "60", "--trace", paths["trace"], "--fmt-plans", paths["fmtplans"], "--rustfmt-home", home], threads=14)
     events = core.read_ndjson(paths["trace"])
     keys = known_by_key(run)
     for e in events:
@@ -72,8 +102,10 @@ def check(tier):
     plans, cycles = model(run, t["npos"], t["ndefs"])
     sets = c02.generate(run, tier, **t["sim"])
     events_holder = []
-    run.case_of = lambda ev: {"backend": ev.get("backend"), "what": ev.get("what"), "text": ev.get("text") or ev.get("asn")}
-    events = drive_and_validate(run, plans, cycles, sets, t["scale"], shards=8 if tier == "quick" else 16)
+    run.case_of = lambda ev: {"backend": ev.get("backend"), "what": ev.get("what"), "text": ev.get("text") or ev.get("asn"), "fmt": bool(ev.get("fmt"))}
+    fmt_plans = fmt_model(run)
+    events = drive_and_validate(run, plans, cycles, sets, t["scale"], shards=8 if tier == "quick" else 16, fmt_plans=fmt_plans)
+    run.cov["formatted_jobs"] = len([e for e in events if e.get("fmt")])
     run.cov["evaluations"] = len(events)
     by = {}
     for e in events:
@@ -85,7 +117,8 @@ def check(tier):
     run.cov["rule"] = ("TLC checks the worker machine under TotalSpec and emits edit plans (operator x relative position x material class) and reference-cycle "
                        "topologies (edge kind per definition x target x outside entry); plans are applied to real-world modules of the repository, generated module sets "
                        "and notation snippets; plus every prefix and a multi-byte character at every position of small inputs, seeded token soup, deep nesting; every "
-                       "input runs in a worker process (8 MiB stack, watchdog) through compile_to_string, Display and contextualize of every error and warning; "
+                       "input runs in a worker process (8 MiB stack, watchdog); the formatting step of the rasn backend (bindings piped through a rustfmt child, FmtPipe.tla) is exercised with "
+                       "outputs of 1/2, 1, 3/2 and 3 times the pipe capacity and with seeds, rustfmt in reach as in a build script; every job runs through compile_to_string, Display and contextualize of every error and warning; "
                        "non-trivial = distinct (backend, input)")
     bad = [e for e in events if e["outcome"] not in ("ok", "err")]
     run.cov["samples"] = [{"kind": e["kind"], "what": e["what"], "backend": e["backend"], "outcome": e["outcome"]} for e in events[:: max(1, len(events) // 5)][:5]]
@@ -102,7 +135,7 @@ def replay(payload):
     run = Run("C08", "quick")
     case = payload.get("case") or {}
     text = case.get("text") or ""
-    job = json.dumps({"id": 0, "text": text, "backend": case.get("backend") or "rasn"})
+    job = json.dumps({"id": 0, "text": text, "backend": case.get("backend") or "rasn", "fmt_home": rustfmt_home() if case.get("fmt") else ""})
     try:
         p = subprocess.run([core.VH, "c08worker"], input=job + "\n", env=core.harness_env(), stdout=subprocess.PIPE, stderr=subprocess.DEVNULL, text=True, timeout=120)
         done = [l for l in p.stdout.splitlines() if l.startswith("DONE ")]
